@@ -39,8 +39,8 @@ type fsOp struct {
 }
 
 var (
-	c49Dirs  = []string{"certs/a", "certs/ab", "certs/a.b", "certs/abc", "certs/a/b", "certs/a/bc", "certs", "a", "ab", "acme/ca-1", "acme/ca-10"}
-	c49Files = []string{"x.pem", "y.pem", "x.pem.json", "x", "a", "ab", "b"}
+	c49Dirs  = []string{"certs/a", "certs/ab", "certs/a.b", "certs/abc", "certs/a/b", "certs/a/bc", "certs", "a", "ab", "acme/ca-1", "acme/ca-10", "orders", "orders/pending"}
+	c49Files = []string{"x.pem", "y.pem", "x.pem.json", "x", "a", "ab", "b", "pending", "0001"}
 )
 
 func underDir(key, dir string) bool {
@@ -50,11 +50,15 @@ func underDir(key, dir string) bool {
 	return strings.HasPrefix(key, dir+"/")
 }
 
-// fileDirConflict: in a file store a key cannot be both a file and a
-// directory; such key sets are outside the domain.
-func fileDirConflict(model map[string][]byte, key string) bool {
+// keyAndDirectory: key is stored and is also a proper path prefix of another
+// stored key (a name that is both a "file" and a "directory"). The KV allows
+// it; a listing must still show the name once.
+func keyAndDirectory(model map[string][]byte, key string) bool {
+	if _, ok := model[key]; !ok {
+		return false
+	}
 	for k := range model {
-		if k != key && (underDir(k, key) || underDir(key, k)) {
+		if k != key && underDir(k, key) {
 			return true
 		}
 	}
@@ -163,10 +167,6 @@ func runFsHistory(t failT, rec *ev.Recorder, ops []fsOp) {
 		s := inst[op.Inst]
 		switch op.Op {
 		case "store":
-			if fileDirConflict(model, op.Key) {
-				op.Got = "skipped:file-dir-conflict"
-				continue
-			}
 			if err := s.Store(ctx, op.Key, []byte(op.Val)); err != nil {
 				fail("store-error", i, "Store returned %v", err)
 			}
@@ -254,6 +254,15 @@ func runFsHistory(t failT, rec *ev.Recorder, ops []fsOp) {
 				nt = true
 				labels["list:non-empty"] = true
 			}
+			for _, w := range want {
+				if keyAndDirectory(model, w) {
+					nt = true
+					labels["list:child-is-both-key-and-directory"] = true
+				}
+			}
+			if keyAndDirectory(model, dir) {
+				labels["list:prefix-is-both-key-and-directory"] = true
+			}
 			if sibling {
 				nt = true
 				labels["list:string-prefix-sibling-stored"] = true
@@ -307,6 +316,14 @@ func genFsOps(t *rapid.T) []fsOp {
 		if len(used) > 0 && rapid.IntRange(0, 3).Draw(t, "reuse") != 0 {
 			return rapid.SampledFrom(used).Draw(t, "usedKey")
 		}
+		switch rapid.IntRange(0, 3).Draw(t, "keyKind") {
+		case 0: // a directory name stored as a key (certs/a, orders/pending, a …)
+			return rapid.SampledFrom(c49Dirs).Draw(t, "dirAsKey")
+		case 1: // a key below an existing key
+			if len(used) > 0 {
+				return rapid.SampledFrom(used).Draw(t, "parentKey") + "/" + rapid.SampledFrom(c49Files).Draw(t, "childFile")
+			}
+		}
 		return genC49Key(t, "key")
 	}
 	for i := 0; i < n; i++ {
@@ -327,7 +344,19 @@ func genFsOps(t *rapid.T) []fsOp {
 		default:
 			op.Op = "list"
 			op.Recursive = rapid.IntRange(0, 4).Draw(t, "recursive") == 0
-			switch rapid.IntRange(0, 9).Draw(t, "listKind") {
+			switch rapid.IntRange(0, 12).Draw(t, "listKind") {
+			case 10, 11, 12: // the parent (or grandparent) directory of a key used so far
+				if len(used) == 0 {
+					op.Key = rapid.SampledFrom(c49Dirs).Draw(t, "listDir")
+					break
+				}
+				d := rapid.SampledFrom(used).Draw(t, "listParentOf")
+				for up := rapid.IntRange(1, 2).Draw(t, "up"); up > 0; up-- {
+					if j := strings.LastIndexByte(d, '/'); j > 0 {
+						d = d[:j]
+					}
+				}
+				op.Key = d
 			case 0:
 				op.Key = ""
 			case 1:
@@ -607,8 +636,8 @@ func checkLockOutcome(t failT, rec *ev.Recorder, o lockOutcome) {
 
 func TestC49(t *testing.T) {
 	rec := ev.New(t, "C49")
-	rec.Rule("(1) rapid-generated histories of 4..30 store/load/delete/exists/stat/list operations issued through two ChordStorage instances sharing one memory KV, over path-like keys dir/file with directories that share string prefixes (certs/a, certs/ab, certs/a.b, certs/a/b, acme/ca-1, acme/ca-10 …), lists on directories, parents, the root, trailing-slash forms and on file keys, non-empty values; oracle = map-backed file-store model (non-recursive list = set of immediate children, each once, nothing else; recursive list only bracketed). Non-trivial history: it contains a non-recursive list with >=1 expected child or with a stored string-prefix sibling, or a load/exists of a key overwritten or deleted earlier. (2) seeded lock programmes: 2..3 instances over one KV, TTL 1 s, each runs 1..2 lock/hold/unlock steps (optionally ends by being cut off from the KV without unlocking); oracle = hold intervals [Lock returned, min(Unlock called, last successful acquire/renew invoked + TTL)] of different instances on the same key are disjoint. Non-trivial programme: >=1 acquire conflict was observed (real contention). Distinct = distinct histories / programmes.")
-	rec.Assume("key sets never make one key both a file and a directory (stores that would are skipped)",
+	rec.Rule("(1) rapid-generated histories of 4..30 store/load/delete/exists/stat/list operations issued through two ChordStorage instances sharing one memory KV, over path-like keys with directories that share string prefixes (certs/a, certs/ab, certs/a.b, certs/a/b, acme/ca-1, acme/ca-10 …) and key sets in which a name is both a stored key and the parent of deeper keys (orders/pending and orders/pending/0001; directory names stored as keys; keys stored below existing keys), lists on directories, parents, the root, trailing-slash forms and on file keys, non-empty values; oracle = map-backed file-store model (non-recursive list = set of immediate children, each once, nothing else; recursive list only bracketed). Non-trivial history: it contains a non-recursive list with >=1 expected child (incl. a child that is both key and directory) or with a stored string-prefix sibling, or a load/exists of a key overwritten or deleted earlier. (2) seeded lock programmes: 2..3 instances over one KV, TTL 1 s, each runs 1..2 lock/hold/unlock steps (optionally ends by being cut off from the KV without unlocking); oracle = hold intervals [Lock returned, min(Unlock called, last successful acquire/renew invoked + TTL)] of different instances on the same key are disjoint. Non-trivial programme: >=1 acquire conflict was observed (real contention). Distinct = distinct histories / programmes.")
+	rec.Assume("keys may be both a stored key and a path prefix of other stored keys (the KV allows it); an immediate child is then still listed exactly once",
 		"the DHT behind the storage is a single in-process kv/memory store (routing and replication are other properties)",
 		"lock intervals are judged on the harness' monotonic clock; the KV judges lease expiry on the wall clock of the same process (no clock steps during a run)")
 
@@ -630,6 +659,14 @@ func TestC49(t *testing.T) {
 			{Op: "store", Inst: 1, Key: "certs/ab/z.pem", Val: "3"}, {Op: "list", Key: "certs/a"}, {Op: "list", Key: "certs/ab"},
 			{Op: "list", Key: "certs"}, {Op: "store", Key: "certs/a/x.pem", Val: "4"}, {Op: "load", Inst: 1, Key: "certs/a/x.pem"},
 			{Op: "delete", Key: "certs/a/y.pem"}, {Op: "exists", Inst: 1, Key: "certs/a/y.pem"}, {Op: "load", Key: "certs/a/y.pem"},
+		})
+		// a name that is both a stored key and the parent of deeper keys
+		runFsHistory(t, rec, []fsOp{
+			{Op: "store", Key: "orders/pending", Val: "p"}, {Op: "store", Inst: 1, Key: "orders/pending/0001", Val: "1"},
+			{Op: "store", Key: "orders/README", Val: "r"}, {Op: "store", Key: "orders/done/0001", Val: "d"},
+			{Op: "list", Key: "orders"}, {Op: "list", Inst: 1, Key: "orders/pending"}, {Op: "list", Key: ""},
+			{Op: "load", Inst: 1, Key: "orders/pending"}, {Op: "delete", Key: "orders/pending"}, {Op: "list", Key: "orders"},
+			{Op: "store", Key: "orders", Val: "o"}, {Op: "list", Key: ""}, {Op: "list", Key: "orders/"},
 		})
 	}
 
